@@ -187,7 +187,7 @@ FITS_TIME_KEYS = {"JDREF", "JDREFI", "JDREFF", "MJDREF", "MJDREFI", "MJDREFF", "
 
 
 def non_config_meta(tab):
-    return {k: v for k, v in tab.meta.items() if not str(k).startswith("Config ") and k.upper() not in ("SIMTIME", "EXTNAME") and k.upper() not in FITS_TIME_KEYS}
+    return {k: v for k, v in tab.meta.items() if not str(k).startswith(("Config ", "HIERARCH Config ")) and k.upper() not in ("SIMTIME", "EXTNAME") and k.upper() not in FITS_TIME_KEYS}
 
 
 def check_snapshot(snap, final, model, j, what, unrepresentable=()):
@@ -247,6 +247,12 @@ def baseline(case, tmp):
         v = v[0] if isinstance(v, tuple) else v
         if isinstance(v, (float, np.floating)) and not math.isfinite(v):
             nan_keys.add(k)
+    # the file after the last stage IS the returned table: same result keywords (a value FITS cannot carry excepted)
+    mem, disk = non_config_meta(tab), non_config_meta(final)
+    require(sorted(k for k in mem if k not in nan_keys) == sorted(disk), f"the returned table carries the result keywords {sorted(mem)}, the staged file after the last stage {sorted(disk)}")
+    for k in disk:
+        mv = mem[k][0] if isinstance(mem[k], tuple) else mem[k]
+        require(c14.same_scalar(disk[k], mv), f"result keyword {k}: {disk[k]!r} in the staged file, {mv!r} in the returned table")
     for j in range(1, len(model) + 1):
         sp = os.path.join(snaps, f"snap_{j:02d}.fits")
         with cut(f"Table.read(snapshot after stage store {j})"):
@@ -302,6 +308,14 @@ def body_raise(case):
         with cut("compute(write_stages=False, output_file=...)"):
             run(case, out, False, spy)
         require(spy.count == 0 and not os.path.exists(out), f"intermediate writing disabled, but the simulation wrote {spy.count} times to the output file (exists: {os.path.exists(out)})")
+        # ... nor anywhere else: an output path in a directory that does not exist yet leaves the directory tree as it was
+        listing = lambda: sorted(os.path.join(d, x) for d, ds, fs in os.walk(tmp) for x in ds + fs)  # noqa: E731
+        before = listing()
+        deep = os.path.join(tmp, "not", "yet", "there", "out" + case.get("ext", ".fits"))
+        with cut("compute(write_stages=False, output_file in a directory that does not exist)"):
+            run(case, deep, False, WriteSpy(deep))
+        after = listing()
+        require(after == before, f"intermediate writing disabled, but the simulation created {[os.path.relpath(x, tmp) for x in after if x not in before]}")
         # ... also when a file of that name already exists: it is left alone
         with open(out, "wb") as f:
             f.write(b"previous content")
